@@ -122,7 +122,31 @@ def _load(spec, key):
     return mod
 
 
+# --- performance device only (same as verif.core.deep_call, duplicated because this script is stand-alone):
+# run f below one frame with ~140k unused local slots, so that CPython keeps one big frame-stack chunk instead
+# of mmap/munmap-ing 16 KiB chunks thousands of times per compilation.  Semantics of f are untouched.
+_BIG = []
+
+
+def _tpl(f, *a):
+    return f(*a)
+
+
+def deep_call(f, *a):
+    if not _BIG:
+        import types
+
+        c = _tpl.__code__
+        names = c.co_varnames + tuple("_pad%d" % i for i in range(140000))
+        _BIG.append(types.FunctionType(c.replace(co_varnames=names, co_nlocals=len(names)), globals()))
+    return _BIG[0](f, *a)
+
+
 def compile_letter(spec, letter):
+    return deep_call(_compile_letter, spec, letter)
+
+
+def _compile_letter(spec, letter):
     """One compilation on the real process-wide state.  Returns {"ok", "text", "exc", "msg"}."""
     from cohdl import std
 
@@ -265,6 +289,8 @@ def main():
     if n:
         _prealloc(n)
     import cohdl  # noqa: F401  (after the first perturbation on purpose)
+    from cohdl import std  # noqa: F401
+    deep_call(int)  # build the big frame once, before any fork
     if n:
         _prealloc(n // 2 + 1)
 
